@@ -3,6 +3,7 @@ import Req.Pool.Cancel
 import Req.Pool.CancelPool
 import Req.Pool.CancelPoolLane
 import Req.Pool.CancelH2
+import Req.Pool.CancelErr
 /-!
 Driver lanes of C08.
 
@@ -30,6 +31,8 @@ Driver lanes of C08.
   replay the trace (`ev:<Ev>`, `act:<Act>`, `settle` = run the internal steps to quiescence), cancel,
   explore EVERY maximal internal run; answer = the observed outcome if the model reaches it, else
   the first outcome it does reach.
+* `c08errclass <src> <wrappers>` — `CancelErr.rel` seen through the wrappers (`u`rl.Error,
+  `n`othingWrittenError, `r`eadFromServer, `b`roken conn; `-` = none): `c=<0|1> d=<0|1> t=<0|1>`.
 -/
 namespace Req.Driver.L.C08
 open Req.Proto Req.Cancel
@@ -356,7 +359,30 @@ def laneH2Life : List String → String
 
 end H2
 
+def parseSrc (s : String) : Option Req.CancelErr.Src :=
+  if s == "ctxCanceled" then some .ctxCanceled else if s == "ctxDeadline" then some .ctxDeadline
+  else if s == "respHeaderTimeout" then some .respHeaderTimeout
+  else if s == "tlsHandshakeTimeout" then some .tlsHandshakeTimeout
+  else if s == "h2RespHeaderTimeout" then some .h2RespHeaderTimeout
+  else if s == "reqCanceled" then some .reqCanceled else if s == "reqCanceledConn" then some .reqCanceledConn
+  else if s == "serverClosedIdle" then some .serverClosedIdle else if s == "io" then some .io else none
+
+def laneErrClass : List String → String
+  | [src, ws] =>
+    let wl : Option (List Req.CancelErr.Wrap) :=
+      if ws == "-" then some [] else ws.toList.mapM fun c =>
+        if c == 'u' then some .urlError else if c == 'n' then some .nothingWritten
+        else if c == 'r' then some .readFromServer else if c == 'b' then some .brokenConn else none
+    match parseSrc src, wl with
+    | some s, some l =>
+      let r := Req.CancelErr.seen l (Req.CancelErr.rel s)
+      let f := fun (b : Bool) => if b then "1" else "0"
+      "c=" ++ f r.isCanceled ++ " d=" ++ f r.isDeadline ++ " t=" ++ f r.timeout
+    | _, _ => "bad-op"
+  | _ => "bad-op"
+
 def lanes : List (String × (List String → String)) := [
+  ("c08errclass", laneErrClass),
   ("c08h2cleanup", laneH2Cleanup),
   ("c08h2flow", laneH2Flow),
   ("c08h2life", laneH2Life),
